@@ -21,6 +21,18 @@ CLAIMED = {
     ),
 }
 
+CLAIMED["C15"] = dict(
+    category="proof",
+    text="29 theorems over a heap model of Path/System (any lengths, any limit incl. None/0/negative): paste limit/"
+         "order/length/head/time-origin and ref sharing, copy/+=/reverse freshness and independence (with the shallow-copy "
+         "counterexample for in-place order[0]), reverse flags and reverse-twice, argmin/argmax and start/end/cross "
+         "classification vs the extreme values incl. empty and one-frame paths; reachable_wf shows the hypotheses hold "
+         "on every reachable machine state. Tie: thousands of random op programs on real Path/System objects with object "
+         "identity canonicalised + exhaustive classification over a 5-level alphabet.",
+    design_ref="DESIGN.md §6 C15",
+    technique="Lean 4 proof over a heap (ref) model + differential op-program correspondence",
+)
+
 NOT_YET = "check not built yet at this commit (work in progress; see DESIGN.md §8 work order)"
 
 
